@@ -41,7 +41,7 @@ mod verif_c11_turboshake {
 
     #[kani::proof]
     #[kani::unwind(40)]
-    #[kani::stub(<CTurboShake128<XOF_TURBO_SHAKE_128_DOMAIN_SEPARATION> as Update>::update, rec_update)]
+    #[kani::stub(<turboshake::TurboShake<168, 1> as turboshake::digest::Update>::update, rec_update)]
     fn ts_from_seed_slice_transcript_short() {
         let tag: [u8; 8] = kani::any();
         let cb: [u8; 2] = kani::any();
@@ -61,7 +61,7 @@ mod verif_c11_turboshake {
 
     #[kani::proof]
     #[kani::unwind(210)]
-    #[kani::stub(<CTurboShake128<XOF_TURBO_SHAKE_128_DOMAIN_SEPARATION> as Update>::update, rec_update)]
+    #[kani::stub(<turboshake::TurboShake<168, 1> as turboshake::digest::Update>::update, rec_update)]
     fn ts_from_seed_slice_transcript_long() {
         let tag: [u8; 8] = kani::any();
         let ctx: [u8; 200] = kani::any();
@@ -84,7 +84,7 @@ mod verif_c11_turboshake {
 
     #[kani::proof]
     #[kani::unwind(40)]
-    #[kani::stub(<CTurboShake128<XOF_TURBO_SHAKE_128_DOMAIN_SEPARATION> as Update>::update, rec_update)]
+    #[kani::stub(<turboshake::TurboShake<168, 1> as turboshake::digest::Update>::update, rec_update)]
     fn ts_update_transcript() {
         let seed: [u8; 32] = kani::any();
         let tag: [u8; 8] = kani::any();
